@@ -117,18 +117,20 @@ def gen_contract(args):
         m, fn = sp.function_for(key)
         res['function'] = front.describe(m, fn)
         res['assumptions'] = sorted(run.assumptions_used) + list(sp.assumptions)
-        for ob in obs:
-            rec = {'name': ob.name, 'kind': ob.kind, 'role': ob.role, 'line': ob.where,
-                   'path': list(ob.decisions), 'contract': key, 'info': ob.info or None}
-            if z3.is_true(ob.goal):
-                rec.update(result='proved', seconds=0.0, backend='trivial', reason='', smt2='')
-            else:
-                fs, _tab = vc.formulas_of(ob)
-                s0 = z3.Solver()
-                for f in fs:
-                    s0.add(f)
-                rec['smt2'] = s0.to_smt2()
+        res['groups'] = []
+        trivial = [ob for ob in obs if z3.is_true(ob.goal)]
+        real = [ob for ob in obs if not z3.is_true(ob.goal)]
+
+        def mk(ob):
+            return {'name': ob.name, 'kind': ob.kind, 'role': ob.role, 'line': ob.where,
+                    'path': list(ob.decisions), 'contract': key, 'info': ob.info or None}
+        for ob in trivial:
+            rec = mk(ob)
+            rec.update(result='proved', seconds=0.0, backend='trivial', reason='')
             res['obligations'].append(rec)
+        for g in vc.export_groups_rel(real):
+            g['members'] = [mk(ob) for ob in g['members']]
+            res['groups'].append(g)
     except OutOfSubset as e:
         res['error'] = 'out-of-subset: %s' % e
     except S.SpecError as e:
@@ -141,56 +143,126 @@ def gen_contract(args):
     return res
 
 
-def solve_obligation(args):
-    """Phase 2 worker: one obligation, in a FRESH z3 context (verdicts must not
-    depend on what was solved before in the process); `unknown` is retried with
-    another seed before it counts as undecided; then the finite-scope refuter."""
-    modnames, rec, timeout_ms, seed, opts = args
-    if rec.get('result') == 'proved':
-        return rec
+def _check(smt2, sel, timeout_ms, seed):
+    ctx = z3.Context()
+    s_ = z3.Solver(ctx=ctx)
+    s_.from_string(smt2)
+    s_.set('timeout', timeout_ms)
+    s_.set('random_seed', seed)
+    return s_, ctx, z3.Bool(sel, ctx)
+
+
+def split_group_text(smt2, n_goals):
+    """The group text is declarations + one (assert ...) block per hypothesis +
+    one per goal (the last n_goals).  Returns (common text, [goal block, ...])."""
+    parts = smt2.split('\n(assert')
+    head = parts[0]
+    blocks = parts[1:]
+    # the final block carries the trailing (check-sat)
+    last = blocks[-1]
+    idx = last.rfind('(check-sat)')
+    if idx >= 0:
+        blocks[-1] = last[:idx]
+    hyps = blocks[:len(blocks) - n_goals]
+    goals = blocks[len(blocks) - n_goals:]
+    return head, ['\n(assert' + b for b in hyps], ['\n(assert' + g for g in goals]
+
+
+def relevant(hyp_syms, goal_syms, rounds=3):
+    """Indices of the hypotheses that share a (non-hub) symbol with the goal,
+    transitively for a few rounds."""
+    n = len(hyp_syms)
+    count = {}
+    for hs in hyp_syms:
+        for x in hs:
+            count[x] = count.get(x, 0) + 1
+    hubs = {x for x, c in count.items() if n >= 8 and c > 0.5 * n}
+    cur = set(goal_syms) - hubs
+    chosen = set()
+    for _ in range(rounds):
+        grew = False
+        for i, hs in enumerate(hyp_syms):
+            if i in chosen:
+                continue
+            hset = set(hs) - hubs
+            if not hset or (hset & cur):
+                chosen.add(i)
+                if not hset <= cur:
+                    cur |= hset
+                    grew = True
+        if not grew:
+            break
+    return chosen
+
+
+def solve_one(args):
+    """Phase 2 worker: ONE obligation in a FRESH z3 context and a non-incremental
+    solver (verdicts must not depend on what was solved before).  `unknown` is
+    retried with another seed before it counts as undecided; then the
+    finite-scope refuter looks for a candidate counter-model."""
+    modnames, head, hyp_blocks, hyp_syms, goal_block, goal_syms, i, rec, timeout_ms, seed, opts = args
+    text = head + ''.join(hyp_blocks) + goal_block + '\n(assert sel!%d)\n' % i
     t1 = time.time()
-    attempts = [(seed, timeout_ms), (seed + 1, max(1000, timeout_ms // 2))]
-    if rec['kind'] == 'canary':
-        # must NOT be provable; two seconds are plenty for an inconsistency to show
-        attempts = [(seed, min(timeout_ms, 2000))]
-    r, reason, n_att = 'unknown', '', 0
-    s_ = ctx = None
-    for sd, to in attempts:
+    # first with the relevant hypotheses only (sound for proving, and far more
+    # robust: fewer quantifiers to instantiate); only `unsat` is accepted from it
+    if len(hyp_blocks) == len(hyp_syms) and rec['kind'] != 'canary' and opts.get('relevance', True):
+        sel_idx = relevant(hyp_syms, goal_syms)
+        if len(sel_idx) < len(hyp_blocks):
+            small = head + ''.join(b for j, b in enumerate(hyp_blocks) if j in sel_idx) \
+                + goal_block + '\n(assert sel!%d)\n' % i
+            try:
+                ctx = z3.Context()
+                s_ = z3.Solver(ctx=ctx)
+                s_.from_string(small)
+                s_.set('timeout', max(1000, timeout_ms // 2))
+                s_.set('random_seed', seed)
+                if str(s_.check()) == 'unsat':
+                    rec['seconds'] = round(time.time() - t1, 4)
+                    rec['backend'] = 'z3-%s' % z3.get_version_string()
+                    rec['reason'] = ''
+                    rec['attempts'] = 1
+                    rec['hyps_used'] = '%d of %d' % (len(sel_idx), len(hyp_blocks))
+                    rec['result'] = 'proved'
+                    return rec
+            except z3.Z3Exception:
+                pass
+    to = min(timeout_ms, 2000) if rec['kind'] == 'canary' else timeout_ms
+    attempts = [(seed, to)] if rec['kind'] == 'canary' else \
+        [(seed, to), (seed + 1, max(1000, to // 2))]
+    r, reason, n_att, model = 'unknown', '', 0, None
+    for sd, tmo in attempts:
         n_att += 1
-        ctx = z3.Context()
-        s_ = z3.Solver(ctx=ctx)
         try:
-            s_.from_string(rec['smt2'])
-            s_.set('timeout', to)
+            ctx = z3.Context()
+            s_ = z3.Solver(ctx=ctx)
+            s_.from_string(text)
+            s_.set('timeout', tmo)
             s_.set('random_seed', sd)
             r = str(s_.check())
             reason = s_.reason_unknown() if r == 'unknown' else ''
+            if r == 'sat':
+                model = (s_.model(), ctx)
         except z3.Z3Exception as e:
             r, reason = 'error', repr(e)
-        if r != 'unknown' or rec['kind'] == 'canary':
+        if r != 'unknown':
             break
     rec['seconds'] = round(time.time() - t1, 4)
     rec['backend'] = 'z3-%s' % z3.get_version_string()
     rec['reason'] = reason
     rec['attempts'] = n_att
     rec['result'] = {'unsat': 'proved', 'sat': 'sat', 'unknown': 'unknown', 'error': 'error'}[r]
-    if rec['result'] == 'proved':
-        rec['smt2'] = ''
+    if rec['result'] == 'proved' or rec['kind'] == 'canary':
         return rec
-    if rec['kind'] == 'canary':
-        rec['smt2'] = ''
-        return rec
-    rec['smt2_head'] = rec['smt2'][:1500]
+    rec['smt2_head'] = text[:1200]
     try:
         sp = _worker_spec(modnames)
         env = run_env(sp, None, rec['contract'])
-        rec['params'] = shapes_of(env)
     except Exception as e:
         env = {}
         rec['witness_error'] = repr(e)
-    if rec['result'] == 'sat':
+    rec['params'] = shapes_of(env)
+    if model is not None:
         try:
-            model = (s_.model(), ctx)
             rec['witness'] = witness_of(env, model)
             rec['model'] = str(model[0])[:3000]
         except Exception as e:
@@ -198,7 +270,7 @@ def solve_obligation(args):
     elif rec['result'] == 'unknown' and opts.get('refute', True):
         from . import refute
         try:
-            fm = refute.finite_scope_smt2(rec['smt2'], scope=opts.get('scope', 3),
+            fm = refute.finite_scope_smt2(text, scope=opts.get('scope', 3),
                                           timeout_ms=min(timeout_ms, 6000))
             if fm is not None:
                 rec['result'] = 'refuted-finite-scope' if fm['exact'] else 'candidate-finite-scope'
@@ -210,8 +282,8 @@ def solve_obligation(args):
                     rec['witness_error'] = repr(e)
         except Exception as e:
             rec['refute_error'] = repr(e)
-    if not opts.get('keep_smt2'):
-        rec['smt2'] = ''
+    if opts.get('keep_smt2'):
+        rec['smt2'] = text
     return rec
 
 
@@ -260,13 +332,19 @@ def run_all(modnames, keys, timeout_ms, seed, opts, workers=16):
         results = p.map(gen_contract, jobs, chunksize=max(1, len(jobs) // (workers * 8)))
         if os.environ.get('VERIF_PROFILE'):
             sys.stderr.write('phase1 %.1fs\n' % (time.time() - t0))
-        flat = [(modnames, rec, timeout_ms, seed, opts)
-                for r in results for rec in r['obligations']]
-        # hardest first is unknown in advance: plain order, small chunks
-        solved = p.map(solve_obligation, flat, chunksize=max(1, min(16, len(flat) // (workers * 4) or 1)))
+        flat = []
+        for r in results:
+            for g in r.get('groups', []):
+                head, hyps, goals = split_group_text(g['smt2'], len(g['members']))
+                for i, (rec, gb) in enumerate(zip(g['members'], goals)):
+                    flat.append((modnames, head, hyps, g['hyp_syms'], gb, g['goal_syms'][i], i,
+                                 rec, timeout_ms, seed, opts))
+        solved = p.map(solve_one, flat, chunksize=max(1, min(8, len(flat) // (workers * 4) or 1)))
     if os.environ.get('VERIF_PROFILE'):
         sys.stderr.write('phase1+2 %.1fs obligations=%d\n' % (time.time() - t0, len(flat)))
     it = iter(solved)
     for r in results:
-        r['obligations'] = [next(it) for _ in r['obligations']]
+        for g in r.pop('groups', []):
+            for _ in g['members']:
+                r['obligations'].append(next(it))
     return results
